@@ -454,6 +454,64 @@ def c09_cases(tier):
         yield case, oracle
 
 
+def c02_cases(tier):
+    """every type a generated module mentions is defined in it exactly once (or is a std / prelude name)"""
+    schema = ("scalar Date scalar Money enum Kind { A B } enum Unused { X } interface Named { name: String } "
+              "type Dog implements Named { name: String born: Date kind: Kind owner: Person } type Cat implements Named { name: String price: Money } "
+              "type Person { name: String since: Date pets: [Pet!] } union Pet = Dog | Cat "
+              "input Range { from: Date to: Date inner: Inner } input Inner { kind: Kind amount: Money again: Range } "
+              "type Query { me(at: Date, range: Range, kind: Kind, n: Int): Person pet: Pet named: Named }")
+    queries = [
+        "query Q($at: Date) { me(at: $at) { name } }",
+        "query Q($range: Range) { me(range: $range) { name since } }",
+        "query Q($kind: Kind, $n: Int) { me(kind: $kind, n: $n) { name } }",
+        "fragment P on Person { since pets { __typename ... on Dog { born kind } ... on Cat { price } } } query Q { me { ...P } }",
+        "fragment D on Dog { born owner { ...P } } fragment P on Person { name pets { __typename ...D } } query Q { pet { __typename ...D } }",
+        "query Q { named { __typename name ... on Dog { kind } } pet { __typename ... on Cat { price } } }",
+        "query A($at: Date) { me(at: $at) { name } } query B { pet { __typename ... on Dog { kind } } }",
+    ]
+    known = set("Option Vec Box String bool i64 f64 u8 Self str super crate std serde Serialize Deserialize graphql_client".split())
+    for q in queries:
+        for mod in (None, "crate::scalars"):
+            opts = {"mode": "cli"}
+            if mod:
+                opts["custom_scalars_module"] = mod
+            case = {"schema": schema, "query": q, "options": opts}
+
+            def oracle(res, q=q, mod=mod):
+                if res["exit"] != 0 or not res["out"] or not res["out"].get("ok"):
+                    return "generation failed for a supported input: %s" % q
+                toks = res["out"]["tokens"]
+                # one `pub mod name { ... }` per operation: check each module body on its own
+                bodies = []
+                for mm in re.finditer(r"\bmod ([a-z_0-9]+) \{", toks):
+                    depth, k = 1, mm.end()
+                    while k < len(toks) and depth > 0:
+                        depth += {"{": 1, "}": -1}.get(toks[k], 0)
+                        k += 1
+                    bodies.append((mm.group(1), toks[mm.end():k - 1]))
+                if not bodies:
+                    return "no module found in the generated code"
+                for (mname, body) in bodies:
+                    t = norm(body)
+                    defs = re.findall(r"pubstruct([A-Za-z0-9_]+)", t) + re.findall(r"pubenum([A-Za-z0-9_]+)", t) + re.findall(r"(?:pub)?type([A-Za-z0-9_]+)=", t)
+                    dup = sorted(set(d for d in defs if defs.count(d) > 1))
+                    if dup:
+                        return "module %s defines %s more than once" % (mname, dup)
+                    mentioned = set()
+                    for st, fields in _structs(t).items():
+                        for f, (_, ty) in fields.items():
+                            mentioned |= set(re.findall(r"[A-Za-z_][A-Za-z0-9_]*", ty))
+                    for em in re.finditer(r"pubenum[A-Za-z0-9_]+\{([^{}]*)\}", t):
+                        for v in re.findall(r"\(([^()]*)\)", re.sub(r"#\[[^\]]*\]", "", em.group(1))):
+                            mentioned |= set(re.findall(r"[A-Za-z_][A-Za-z0-9_]*", v))
+                    missing = sorted(m for m in mentioned if m not in known and m not in defs)
+                    if missing:
+                        return "module %s mentions %s without defining or importing it (operation `%s`, custom scalars module %s)" % (mname, missing, q[:60], mod)
+                return None
+            yield case, oracle
+
+
 def c08_cases(tier):
     os.makedirs(os.path.join(WORK, "replay-files"), exist_ok=True)
     d = os.path.join(WORK, "replay-files")
@@ -565,7 +623,7 @@ def c15_cases(tier):
             yield case, oracle
 
 
-FAMILIES = {"C15": c15_cases, "C13": c13_cases, "C03": c13_cases, "C14": c14_cases, "C16": c16_cases, "C17": c17_cases, "C11": c11_cases, "C08": c08_cases, "C10": c10_cases, "C06": c06_cases, "C04": c04_cases, "C05": c05_cases, "C12": c12_cases, "C09": c09_cases}
+FAMILIES = {"C15": c15_cases, "C13": c13_cases, "C03": c13_cases, "C14": c14_cases, "C16": c16_cases, "C17": c17_cases, "C11": c11_cases, "C08": c08_cases, "C10": c10_cases, "C06": c06_cases, "C04": c04_cases, "C05": c05_cases, "C12": c12_cases, "C09": c09_cases, "C02": c02_cases}
 
 
 def search_witness(pid, obligation, tier):
